@@ -83,12 +83,28 @@ Fixpoint add_motif (p c : nat) (m : space) (l : list edge) : list edge :=
               else e :: add_motif p c m r
   end.
 
+(* _update_node_depth (after the depth fix): raise the depth of c to dp if it is
+   smaller and propagate to the successors.  The recursion follows DAG paths, so
+   fuel = number of nodes is enough; at fuel 0 nothing is changed. *)
+Definition successors_of (l : list edge) (i : nat) : list nat :=
+  map e_dst (filter (fun e => Nat.eqb (e_src e) i) l).
+
+Fixpoint raise_depth (fuel : nat) (d : sd) (c : nat) (dp : nat) : sd :=
+  match fuel with
+  | O => d
+  | S f =>
+      if Nat.ltb (n_depth (get d c)) dp then
+        let d1 := upd_node d c (fun x => set_depth x dp) in
+        fold_left (fun acc s => raise_depth f acc s (S dp)) (successors_of (sd_edges d1) c) d1
+      else d
+  end.
+
 Definition ensure_edge (d : sd) (p c : nat) (m : space) : sd :=
   let d1 := if has_edge d p c
             then {| sd_nodes := sd_nodes d; sd_edges := add_motif p c m (sd_edges d) |}
             else {| sd_nodes := sd_nodes d;
                     sd_edges := sd_edges d ++ [{| e_src := p; e_dst := c; e_motifs := [m] |}] |} in
-  upd_node d1 c (fun x => set_depth x (Nat.max (n_depth x) (S (n_depth (get d1 p))))).
+  raise_depth (S (size d1)) d1 c (S (n_depth (get d1 p))).
 
 (* _ensure_node *)
 Definition ensure_node (N : net) (d : sd) (parent : option nat) (motif : space) : sd * nat :=
@@ -126,8 +142,7 @@ Fixpoint insert_nat (x : nat) (l : list nat) : list nat :=
   end.
 Definition sort_nat (l : list nat) : list nat := fold_right insert_nat [] l.
 
-Definition successors (d : sd) (i : nat) : list nat :=
-  map e_dst (filter (fun e => Nat.eqb (e_src e) i) (sd_edges d)).
+Definition successors (d : sd) (i : nat) : list nat := successors_of (sd_edges d) i.
 Definition out_degree (d : sd) (i : nat) : nat := length (successors d i).
 Definition is_minimal (d : sd) (i : nat) : bool :=
   Nat.eqb (out_degree d i) 0 && n_exp (get d i).
@@ -181,7 +196,7 @@ Fixpoint bfs_level (N : net) (cfg : config) (size_limit : option nat)
   match cur with
   | [] => (d, RUnit, seen, next)
   | x :: cur' =>
-      if over_limit size_limit d then (d, RBool false, seen, next) else
+      if over_limit size_limit d && negb (n_exp (get d x)) then (d, RBool false, seen, next) else
       let '(d1, r, succ) := node_successors N cfg d x in
       match r with
       | RUnit =>
@@ -237,7 +252,7 @@ Fixpoint dfs_loop (fuel : nat) (N : net) (cfg : config) (stack_limit size_limit 
           let step :=
             match osucc with
             | Some l => Some (d, RUnit, l)
-            | None => if over_limit size_limit d then None
+            | None => if over_limit size_limit d && negb (n_exp (get d x)) then None
                       else let '(d1, r, succ) := node_successors N cfg d x in
                            Some (d1, r, sort_nat succ)
             end in
@@ -277,7 +292,7 @@ Fixpoint target_level (N : net) (cfg : config) (target : space) (size_limit : op
       | Some _ =>
           if subspace sp target && negb (eqb_space sp target)
           then target_level N cfg target size_limit d seen next cur'
-          else if over_limit size_limit d then (d, RBool false, seen, next) else
+          else if over_limit size_limit d && negb (n_exp (get d x)) then (d, RBool false, seen, next) else
           let '(d1, r, succ) := node_successors N cfg d x in
           match r with
           | RUnit =>
@@ -318,19 +333,6 @@ Fixpoint ensure_min_children (N : net) (d : sd) (p : nat) (mins : list space) : 
               ensure_min_children N (mark_expanded d1 c) p r
   end.
 
-Definition skip_to_minimal (N : net) (d : sd) (i : nat) : sd * result :=
-  let x := get d i in
-  if n_exp x then (d, RBool false) else
-  let d0 := if is_full (n_space x) then d else upd_node d i (fun y => set_pn y true) in
-  let mins := sort_by_key (min_traps_b N (n_space x)) in
-  match mins with
-  | [m] => if eqb_space m (n_space x) then (mark_expanded d0 i, RBool true)
-           else let d1 := ensure_min_children N d0 i mins in
-                (upd_node (mark_expanded d1 i) i (fun y => set_skip y true), RBool true)
-  | _ => let d1 := ensure_min_children N d0 i mins in
-         (upd_node (mark_expanded d1 i) i (fun y => set_skip y true), RBool true)
-  end.
-
 (* Python: for m_id, m_trap in trap_with_id: if is_subspace(m_trap, node.space): _ensure_edge *)
 Fixpoint skip_edges (d : sd) (i : nat) (traps : list (nat * space)) : sd :=
   match traps with
@@ -354,7 +356,7 @@ Fixpoint skip_all (d : sd) (ids : list nat) (traps : list (nat * space)) (count 
   | [] => (d, count)
   | i :: r =>
       if n_exp (get d i) then skip_all d r traps count else
-      let d1 := skip_edges d i traps in
+      let d1 := skip_edges (upd_node d i clear_attr) i traps in
       let d2 := upd_node (mark_expanded d1 i) i (fun y => set_skip y true) in
       skip_all d2 r traps (S count)
   end.
@@ -377,7 +379,8 @@ Definition skip_to_minimal_t (N : net) (d : sd) (i : nat) (tape : list space) : 
   if n_exp x then (d, RBool false) else
   let mins := min_traps_b N (n_space x) in
   if negb (perm_of tape mins) then (d, RRaised ErrAssert) else
-  let d0 := if is_full (n_space x) then d else upd_node d i (fun y => set_pn y true) in
+  let dc := upd_node d i clear_attr in
+  let d0 := if is_full (n_space x) then dc else upd_node dc i (fun y => set_pn y true) in
   match tape with
   | [m] => if eqb_space m (n_space x) then (mark_expanded d0 i, RBool true)
            else let d1 := ensure_min_children N d0 i tape in
@@ -390,7 +393,7 @@ Definition skip_to_minimal_t (N : net) (d : sd) (i : nat) (tape : list space) : 
 Definition make_skip_node (N : net) (d : sd) (i : nat) (all_min : list space) : sd :=
   if n_exp (get d i) then d else
   let inside := filter (fun m => subspace m (n_space (get d i))) all_min in
-  let d1 := ensure_min_children N d i inside in
+  let d1 := ensure_min_children N (upd_node d i clear_attr) i inside in
   upd_node (mark_expanded d1 i) i (fun y => set_skip y true).
 
 Fixpoint remove_space (x : space) (l : list space) : option (list space) :=
@@ -426,7 +429,7 @@ Fixpoint min_loop (fuel : nat) (N : net) (cfg : config) (size_limit : option nat
           let step :=
             match osucc with
             | Some l => Some (d, RUnit, l)
-            | None => if over_limit size_limit d then None
+            | None => if over_limit size_limit d && negb (n_exp (get d x)) then None
                       else let '(d1, r, succ) := node_successors N cfg d x in
                            Some (d1, r, sort_nat succ)
             end in
